@@ -12,11 +12,18 @@ COQ_RUNNER = 'bad_recompute_edges'
 COQ_TYPES = ('bool * (float * float * float * float) * Z * list ed_in', 'result (list ed_out)')
 SHARD = 40
 RULE = ('recompute_edges (function and Bycycle.recompute_edges) on cycle tables produced by consistency burst detection on '
-        'bursty / mixed generated signals of both centrings, with the original thresholds and with every *_threshold lowered by '
-        'r in {0, .05, .1, .2, .3}; amp_consistency, period_consistency and is_burst of the result compared with the model; '
-        'oracle: frame condition on every other cell, input untouched, one-sided edge values, labels = rule, growth. '
+        'bursty / mixed generated signals of both centrings; stream A: the original thresholds with every *_threshold lowered by '
+        'r in {0, .05, .1, .2, .3}; stream B (about 45 %): an INDEPENDENT threshold dictionary (single thresholds raised or lowered, '
+        'the documented use "only amp_consistency_threshold = 0", fresh values, another min_n_cycles in 0..5, partial dictionaries '
+        'whose missing keys take the documented defaults of detect_bursts_cycles, a few values outside [0,1]); amp_consistency, '
+        'period_consistency and is_burst of the result compared with the model; oracle: frame condition on every other cell (column '
+        'set and row labels, not column order), input untouched, one-sided edge values with the direction towards the burst, '
+        'labels = threshold-and-run rule on the edited table with the thresholds passed; growth only where the property promises it '
+        '(every new threshold <= the old one and min_n_cycles not larger). Thresholds outside [0,1] / negative min_n_cycles are '
+        'outside the property\'s domain: no oracle verdict, only the model comparison (ValueError). '
         'non-trivial = the input table contains a burst and a non-burst cycle')
-ASSUMPTIONS = ['the input table comes from consistency burst detection (first and last cycle not bursting)']
+ASSUMPTIONS = ['the input table comes from consistency burst detection (first and last cycle not bursting)',
+               'a threshold dictionary that omits keys means the documented defaults of detect_bursts_cycles (0, .5, .5, .8, 3)']
 CYC = pipeline.CYC_KEYS
 COLS = ['amp_fraction', 'amp_consistency', 'period_consistency', 'monotonicity']
 
@@ -29,10 +36,39 @@ def cases(rng, tier):
         thr = {'amp_fraction_threshold': rng.choice([0.0, 0.1, 0.3]), 'amp_consistency_threshold': rng.choice([0.3, 0.5, 0.7]),
                'period_consistency_threshold': rng.choice([0.3, 0.5, 0.7]), 'monotonicity_threshold': rng.choice([0.5, 0.7, 0.8]),
                'min_n_cycles': rng.choice([1, 2, 3])}
-        out.append({'kind': 'edges/' + s['kind'], 'sig': gen.hexlist(s['sig']), 'fs': s['fs'], 'f_range': list(s['f_range']),
-                    'center': rng.choice(['peak', 'trough']), 'thr': thr, 'reduction': rng.choice([0, 0, 0.05, 0.1, 0.2, 0.3]),
-                    'via': rng.choice(['func', 'func', 'object'])})
+        c = {'kind': 'edges/' + s['kind'], 'sig': gen.hexlist(s['sig']), 'fs': s['fs'], 'f_range': list(s['f_range']),
+             'center': rng.choice(['peak', 'trough']), 'thr': thr, 'reduction': rng.choice([0, 0, 0.05, 0.1, 0.2, 0.3]),
+             'via': rng.choice(['func', 'func', 'object'])}
+        if rng.random() < 0.85:    # mostly reductions that keep every threshold inside [0, 1] (the property's domain)
+            c['reduction'] = rng.choice([r for r in [0, 0.05, 0.1, 0.2, 0.3] if r <= min(thr[k] for k in CYC)])
+        if rng.random() < 0.45:
+            c['thr2'] = _independent(rng, thr)
+            c['reduction'] = 0
+        out.append(c)
     return out
+
+
+def _independent(rng, thr):
+    """A threshold dictionary for the recomputation that is NOT `thr - r`."""
+    mode = rng.choice(['shift', 'shift', 'docstring', 'fresh', 'fresh', 'partial', 'partial', 'n_only'])
+    t2 = dict(thr)
+    if mode == 'shift':            # every threshold moved on its own: some raised, some lowered
+        for k in CYC:
+            t2[k] = min(1.0, max(0.0, thr[k] + rng.choice([-0.3, -0.1, 0.0, 0.0, 0.1, 0.2, 0.4])))
+        t2['min_n_cycles'] = max(0, thr['min_n_cycles'] + rng.choice([-1, 0, 0, 1, 2]))
+    elif mode == 'docstring':      # the documented use: relax one criterion completely
+        t2[rng.choice(CYC[1:3])] = 0.0
+    elif mode == 'fresh':
+        t2 = {k: rng.choice([0.0, 0.1, 0.2, 0.4, 0.5, 0.6, 0.8, 0.9, 1.0]) for k in CYC}
+        t2['min_n_cycles'] = rng.choice([0, 1, 2, 3, 4, 5])
+    elif mode == 'partial':        # missing keys -> defaults of detect_bursts_cycles
+        keys = [k for k in CYC + ['min_n_cycles'] if rng.random() < 0.5]
+        t2 = {k: (rng.choice([0.0, 0.2, 0.4, 0.6, 0.9]) if k != 'min_n_cycles' else rng.choice([1, 2, 4])) for k in keys}
+    else:
+        t2['min_n_cycles'] = rng.choice([0, 1, 2, 3, 4, 5, 7])
+    if rng.random() < 0.05:        # outside the domain: model comparison only
+        t2[rng.choice(CYC)] = rng.choice([-0.1, 1.2])
+    return t2
 
 
 def _f(x):
@@ -52,7 +88,9 @@ def run_impl(c):
     except Exception as e:
         return {'skip': 'compute_features raised %s' % exc_kind(e)}
     before = df.copy()
-    red = {k: (v - c['reduction'] if k.endswith('threshold') else v) for k, v in c['thr'].items()}
+    thr2 = c.get('thr2')
+    passed = dict(thr2) if thr2 is not None else {k: (v - c['reduction'] if k.endswith('threshold') else v) for k, v in c['thr'].items()}
+    red = {k: passed.get(k, pipeline.CYC_DEFAULTS[k]) for k in CYC + ['min_n_cycles']}      # effective thresholds
     out = {'rows': [{'rise': _f(float(df['volt_rise'].iloc[i])), 'decay': _f(float(df['volt_decay'].iloc[i])), 'period': int(df['period'].iloc[i]),
                      'f': [_f(float(df[col].iloc[i])) for col in COLS], 'lab': bool(df['is_burst'].iloc[i])} for i in range(len(df))],
            'red': red}
@@ -61,11 +99,15 @@ def run_impl(c):
             from bycycle import Bycycle
             bm = Bycycle(center_extrema=c['center'], thresholds=dict(c['thr']))
             bm.fit(sig, c['fs'], tuple(c['f_range']))
-            bm.recompute_edges(c['reduction'] if c['reduction'] else None)
+            if thr2 is not None:
+                bm.thresholds = dict(thr2)
+            try:
+                bm.recompute_edges(c['reduction'] if c['reduction'] else None)
+            finally:
+                out['obj_thresholds_unchanged'] = bm.thresholds == (thr2 if thr2 is not None else c['thr'])
             res = bm.df_features
-            out['obj_thresholds_unchanged'] = bm.thresholds == c['thr']
         else:
-            res = recompute_edges(df, dict(red))
+            res = recompute_edges(df, dict(passed))
     except Exception as e:
         out['err'] = exc_kind(e)
         out['msg'] = str(e)[:160]
@@ -75,7 +117,8 @@ def run_impl(c):
     out['res'] = [{'ac': _f(float(res['amp_consistency'].iloc[i])), 'pc': _f(float(res['period_consistency'].iloc[i])),
                    'lab': bool(res['is_burst'].iloc[i])} for i in range(len(res))]
     other = [col for col in before.columns if col not in ('amp_consistency', 'period_consistency', 'is_burst')]
-    out['others_unchanged'] = bool(len(res) == len(before) and list(res.columns) == list(before.columns) and
+    out['others_unchanged'] = bool(len(res) == len(before) and set(res.columns) == set(before.columns) and
+                                   list(res.index) == list(before.index) and
                                    all(np.array_equal(np.asarray(res[col], dtype=float), np.asarray(before[col], dtype=float), equal_nan=True)
                                        for col in other))
     return out
@@ -91,8 +134,8 @@ def _ratio(a, b):
 def oracle(c, o):
     if 'skip' in o:
         return None
-    if any(not (0 <= o['red'][k] <= 1) for k in CYC):
-        return None if o.get('err') == 'Value' else 'threshold outside [0,1] after reduction not rejected with ValueError'
+    if any(not (0 <= o['red'][k] <= 1) for k in CYC) or o['red']['min_n_cycles'] < 0:
+        return None                # outside C16's domain (validation is C19's business); the model comparison still runs
     if 'err' in o:
         return 'raised %s (%s)' % (o['err'], o.get('msg'))
     rows, res = o['rows'], o['res']
@@ -152,8 +195,9 @@ def oracle(c, o):
     got = [r['lab'] for r in res]
     if got != want:
         return 'new labels differ from the threshold-and-run rule on the edited table'
-    if any(a and not b for a, b in zip(lab, got)):
-        return 'a previously bursting cycle is no longer bursting'
+    lowered = all(o['red'][k] <= c['thr'][k] for k in CYC) and o['red']['min_n_cycles'] <= c['thr']['min_n_cycles']
+    if lowered and any(a and not b for a, b in zip(lab, got)):
+        return 'a previously bursting cycle is no longer bursting although no threshold was raised'
     return None
 
 
@@ -162,9 +206,11 @@ def nontrivial(c, o):
 
 
 def kind_of(c, o):
-    k = c['kind'] + '/' + c['via']
-    if 'res' in o and any(a['lab'] != b['lab'] for a, b in zip(o['rows'], o['res'])):
+    k = c['kind'] + '/' + c['via'] + ('/thr2' if c.get('thr2') is not None else '')
+    if 'res' in o and any(b['lab'] and not a['lab'] for a, b in zip(o['rows'], o['res'])):
         k += '/grew'
+    if 'res' in o and any(a['lab'] and not b['lab'] for a, b in zip(o['rows'], o['res'])):
+        k += '/shrank'
     return k + ('/skip' if 'skip' in o else '/err' if 'err' in o else '')
 
 
